@@ -202,6 +202,7 @@ def evaluate(spec):
     exp = Lm.Expected(case)
     uses = {}
     cf_into_data = False
+    cf_target_edited = False
     for insns in exp.insns:
         for e in insns:
             u = e.unit
@@ -210,6 +211,10 @@ def evaluate(spec):
                 uses.setdefault(u.sym, set()).add(kind)
                 if kind == "cf" and mapping[u.sym] in case.label_block and not case.blocks[case.label_block[mapping[u.sym]][0]].code:
                     cf_into_data = True
+                    # code spliced into the target data block may turn the
+                    # label's position into code: either outcome is possible
+                    if any(ed.b == case.label_block[mapping[u.sym]][0] for ed in case.edits):
+                        cf_target_edited = True
     for nm in cfi_syms:
         if nm in mapping:
             uses.setdefault(nm, set()).add("cfi")
@@ -233,6 +238,9 @@ def evaluate(spec):
             out.fail("C18.invalid", "symaddraddr-use-not-refused", f"{type(err).__name__ if err else 'no error'}")
         return out
     if cf_into_data:
+        if cf_target_edited:
+            out.excluded = "control-flow-retargeted-into-a-data-block-that-receives-code"
+            return out
         if not isinstance(err, AmbiguousIRError):
             out.fail("C18.invalid", "control-flow-into-data-not-refused", f"{type(err).__name__ if err else 'no error'}")
         return out
